@@ -26,6 +26,8 @@ type popScenario struct {
 	total func(n int) int
 	// hooked: a completion hook is configured for the attribute under the cursor
 	hooked bool
+	// hookItems: items each hook returns for population n (nil: n)
+	hookItems func(n int) int
 }
 
 func popScenarios() []popScenario {
@@ -119,6 +121,15 @@ func popScenarios() []popScenario {
 		{name: "two-hooks+refs", schema: func(n int) *schema.BodySchema {
 			return declSchema(schema.AnyExpression{OfType: cty.String}, lang.CompletionHooks{{Name: world.HookName}, {Name: world.HookName2}})
 		}, text: func(n int) string { return decls(10) + "use {\n  attr = \n}\n" }, cursor: endOf("attr = "), hooks: -2, hooked: true, total: func(n int) int { return 2*n + 10 }},
+		// one hook below the limit and an expression that offers candidates of its own: together over the limit
+		{name: "hook-half+refs-half", schema: func(n int) *schema.BodySchema {
+			return declSchema(schema.AnyExpression{OfType: cty.String}, lang.CompletionHooks{{Name: world.HookName}})
+		}, text: func(n int) string { return decls(n-n/2) + "use {\n  attr = \n}\n" }, cursor: endOf("attr = "), hooks: -2, hooked: true,
+			hookItems: func(n int) int { return n / 2 }, total: func(n int) int { return n }},
+		{name: "hook-half+functions-half", schema: func(n int) *schema.BodySchema {
+			return declSchema(schema.AnyExpression{OfType: cty.String}, lang.CompletionHooks{{Name: world.HookName}})
+		}, text: func(n int) string { return "use {\n  attr = \n}\n" }, cursor: endOf("attr = "), funcs: func(n int) map[string]schema.FunctionSignature { return nFuncs(n - n/2) }, hooks: -2, hooked: true,
+			hookItems: func(n int) int { return n / 2 }, total: func(n int) int { return n }},
 	}
 }
 
@@ -135,6 +146,9 @@ func c06Population(c *report.Collector, tier string) {
 			sp := &world.Spec{SchemaID: "P:" + sc.name, HookItems: sc.hooks}
 			if sc.hooks == -2 {
 				sp.HookItems = n
+				if sc.hookItems != nil {
+					sp.HookItems = sc.hookItems(n)
+				}
 			}
 			n := n
 			sc := sc
